@@ -512,14 +512,29 @@ fn anf<'a>(
             ty: _,
         } => {
             let op_copy = op;
-            anf_imm(
+            // Go evaluates an operation on two numeric literals as an exact constant expression: no
+            // wrap-around (`127 + 1` at int8 does not compile) and `1 / 3` for `1.0 / 3.0`; it also
+            // rejects a zero literal as divisor. Keep one literal in a temporary in these cases so
+            // that the operation happens at run time at the operand type.
+            let arithmetic = matches!(
+                op,
+                BinaryOp::Add | BinaryOp::Sub | BinaryOp::Mul | BinaryOp::Div
+            );
+            let name_rhs = op == BinaryOp::Div && numeric_literal_is_zero(&rhs) == Some(true);
+            let name_lhs = arithmetic
+                && !name_rhs
+                && numeric_literal_is_zero(&lhs).is_some()
+                && numeric_literal_is_zero(&rhs).is_some();
+            let lhs_to_imm = if name_lhs { anf_named } else { anf_imm };
+            let rhs_to_imm = if name_rhs { anf_named } else { anf_imm };
+            lhs_to_imm(
                 anfenv,
                 gensym,
                 *lhs,
                 Box::new(move |lhs_imm| {
                     let op_copy = op_copy;
                     let e_ty = e_ty.clone();
-                    anf_imm(
+                    rhs_to_imm(
                         anfenv,
                         gensym,
                         *rhs,
@@ -638,29 +653,57 @@ fn anf_imm<'a>(
     match e {
         LiftExpr::EVar { name, ty } => k(ImmExpr::ImmVar { name, ty }),
         LiftExpr::EPrim { value, ty } => k(ImmExpr::ImmPrim { value, ty }),
-        _ => {
-            let name = gensym.gensym("t");
-            let ty = e.get_ty();
-            anf(
-                anfenv,
-                gensym,
-                e,
-                Box::new(move |value_expr| {
-                    let body_expr = k(ImmExpr::ImmVar {
-                        name: name.clone(),
-                        ty: ty.clone(),
-                    });
-                    let body_ty = body_expr.get_ty();
-                    AExpr::ALet {
-                        name: name.clone(),
-                        value: Box::new(value_expr),
-                        body: Box::new(body_expr),
-                        ty: body_ty,
-                    }
-                }),
-            )
-        }
+        _ => anf_named(anfenv, gensym, e, k),
     }
+}
+
+/// `Some(is_zero)` for a numeric literal.
+fn numeric_literal_is_zero(e: &LiftExpr) -> Option<bool> {
+    let LiftExpr::EPrim { value, .. } = e else {
+        return None;
+    };
+    match value {
+        Prim::Int8 { value } => Some(*value == 0),
+        Prim::Int16 { value } => Some(*value == 0),
+        Prim::Int32 { value } => Some(*value == 0),
+        Prim::Int64 { value } => Some(*value == 0),
+        Prim::UInt8 { value } => Some(*value == 0),
+        Prim::UInt16 { value } => Some(*value == 0),
+        Prim::UInt32 { value } => Some(*value == 0),
+        Prim::UInt64 { value } => Some(*value == 0),
+        Prim::Float32 { value } => Some(*value == 0.0),
+        Prim::Float64 { value } => Some(*value == 0.0),
+        Prim::Unit { .. } | Prim::Bool { .. } | Prim::String { .. } => None,
+    }
+}
+
+/// Binds `e` to a fresh temporary and passes the temporary on.
+fn anf_named<'a>(
+    anfenv: &'a GlobalAnfEnv,
+    gensym: &'a Gensym,
+    e: LiftExpr,
+    k: Box<dyn FnOnce(ImmExpr) -> AExpr + 'a>,
+) -> AExpr {
+    let name = gensym.gensym("t");
+    let ty = e.get_ty();
+    anf(
+        anfenv,
+        gensym,
+        e,
+        Box::new(move |value_expr| {
+            let body_expr = k(ImmExpr::ImmVar {
+                name: name.clone(),
+                ty: ty.clone(),
+            });
+            let body_ty = body_expr.get_ty();
+            AExpr::ALet {
+                name: name.clone(),
+                value: Box::new(value_expr),
+                body: Box::new(body_expr),
+                ty: body_ty,
+            }
+        }),
+    )
 }
 
 fn anf_list<'a>(
